@@ -2,6 +2,8 @@ import MtblProofs.TpProofs
 import MtblProofs.TpLive
 import MtblProofs.PoolWriterProofs
 import MtblProofs.PoolSorterProofs
+import MtblProofs.TpShareProofs
+import MtblProofs.OwnerProofs
 /-
   C13 — Pooled writers and sorters: same result under every interleaving, no hangs.
   Theorems about the transition system of mtbl/threadpool.c (MtblModel/Tp.lean): they hold for EVERY reachable state,
@@ -135,3 +137,43 @@ theorem C13_sorter (c : SCfg) (f : Bytes → Bytes → Bytes → Option Bytes)
   SorterProofs.pooled_sorter_output hsort hm hok mc hmm hds hF2 adds fuel hfuel
 
 end Mtbl.C13
+
+/-! ### several callers on one pool (`MtblModel/TpShare.lean`)
+
+  The machine above has one caller.  Pooled writers and sorters may share one `mtbl_threadpool` from different caller threads;
+  what they share is `threadpool_next` (take an idle thread, create one below the maximum, or sleep on `pool->c`) and the
+  return-to-pool step of every result handler (push, signal `pool->c`).  `TpShare` models exactly that for ANY number of
+  callers and handlers, with every choice `pthread_cond_signal` may make and spurious wake-ups.  What a thread does while
+  held is the single-client protocol above.  These theorems are NOT a proof of `C14_norace_shared` (no k-client machine);
+  they are the pool-level facts such a proof would start from, and they are tied to the code by the regenerated signal-site
+  table and by the `tpmulti` family (threadpool.c under the deterministic scheduler with 2–4 clients). -/
+namespace TpShare.C13
+
+/-- for any number of callers: never more worker threads than the maximum, and every thread accounted for -/
+theorem C13_shared_bound {max : Nat} {s : PSt} (hr : Reachable max s) :
+    s.count ≤ s.max ∧ s.count = s.idle.length + s.held.length := share_bound hr
+
+/-- a worker thread is handed to at most one caller at a time, and an idle thread to none -/
+theorem C13_shared_exclusive {max : Nat} {s : PSt} (hr : Reachable max s) :
+    (∀ t c1 c2, (t, c1) ∈ s.held → (t, c2) ∈ s.held → c1 = c2) ∧ (∀ t c, t ∈ s.idle → (t, c) ∉ s.held) :=
+  share_exclusive hr
+
+/-- no lost wake-up with several sleepers on `pool->c`: an idle thread next to a caller sleeping without a pending signal
+    always comes with a caller that has been signalled and will run -/
+theorem C13_shared_no_lost_wakeup {max : Nat} {s : PSt} (hr : Reachable max s)
+    (hsl : ∃ c, (c, false) ∈ s.asleep) (hid : s.idle ≠ []) : ∃ c, (c, true) ∈ s.asleep :=
+  share_no_lost_wakeup hr hsl hid
+
+/-- the hypothesis this rests on, re-checked against the source on every run: the result handler signals `pool->c` after
+    every push (table `Mtbl.Generated.signalSites`, regenerated from threadpool.c) -/
+theorem C13_signal_sites : Mtbl.Generated.signalSites.contains ("resultq_next", "pool", "") = true ∧
+    Mtbl.Generated.signalSites.length = 7 := by
+  rw [Mtbl.Owner.signal_sites_as_modelled]; decide
+
+/-- non-vacuity / why it matters: signalling only when the list was empty loses a wake-up with two sleepers -/
+theorem C13_lazy_signal_witness :
+    let run := fun (s : PSt) (ops : List Op) => ops.foldl (fun s op => (stepLazySignal s op).getD s) s
+    let s := run { max := 2 } [.take 0, .take 1, .take 0, .take 1, .give 0 0, .give 1 0, .resume 0]
+    s.idle = [0] ∧ s.asleep = [(1, false)] := lazy_signal_loses_a_wakeup
+
+end TpShare.C13
